@@ -86,7 +86,7 @@ fn base(extras: bool, share: bool, f11: Option<&str>) -> Base {
     }
     delegations["roles"] = json!([drole]);
     let mut tg = json!({"_type":"targets","spec_version":"1.0.0","version":1,"expires":rfc3339(EXP),
-        "targets":{"file.txt": tentry},"delegations":delegations});
+        "targets":{"file.txt": tentry, "odd \"name\\ \u{e9}.txt": target_entry(b"oddly named")},"delegations":delegations});
     let mut dd = json!({"_type":"targets","spec_version":"1.0.0","version":1,"expires":rfc3339(EXP),
         "targets":{"d/x.txt": target_entry(&dcontent)}});
     let d_env_probe = to_bytes(&sign_with(&dd, &[&d]));
@@ -312,6 +312,7 @@ pub fn run(args: &[String]) {
         let rev = real_canon(&to_ov_reversed(env)).ok().and_then(|_| serde_json::to_vec(&to_ov_reversed(env)).ok()).unwrap();
         mutants.push(Mutant { role: role.into(), path: "*".into(), class: "signed".into(), kind: "reorder".into(), doc: serde_json::from_slice(&rev).unwrap_or(env.clone()) });
         mutants.push(Mutant { role: role.into(), path: "*".into(), class: "signed".into(), kind: "reformat".into(), doc: env.clone() });
+        mutants.push(Mutant { role: role.into(), path: "*".into(), class: "signed".into(), kind: "respell".into(), doc: env.clone() });
         let mut e2 = env.clone();
         e2["signatures"].as_array_mut().unwrap().push(json!({"keyid": "ab".repeat(32), "sig": "00ff"}));
         mutants.push(Mutant { role: role.into(), path: "/signatures/-".into(), class: "signed".into(), kind: "extra-signature".into(), doc: e2 });
@@ -328,6 +329,7 @@ pub fn run(args: &[String]) {
         async move {
             let bytes = match m.kind.as_str() {
                 "reformat" => to_bytes_alt(&m.doc),
+                "respell" => to_bytes_escaped(&m.doc),
                 "reorder" => serde_json::to_vec(&to_ov_reversed(&b.docs[&m.role])).unwrap(),
                 _ => to_bytes(&m.doc),
             };
